@@ -146,6 +146,23 @@ func probes() pbt.Probes {
 				outputProbe{probeInput{probeSDL2, `{ n { ... on V { ... on N { s } } } }`, `{"n":{"__typename":"B","s":"x"}}`}, `{"data":{"n":{}}}`},
 			),
 		},
+		findingRootNotObject: {
+			Input: probeInput{probeSDL, `{ me { name } }`, `[]`},
+			Fn: func() string {
+				w, err := getWorld(probeSDL)
+				if err != nil {
+					return ""
+				}
+				var hits []string
+				for _, d := range []string{`[]`, `"str"`, `5`} {
+					r := w.renderEngine(`{ me { name } }`, []byte(d))
+					if r.panicked == "" && r.err != "" && len(r.out) == 0 {
+						hits = append(hits, fmt.Sprintf("subgraph answers {\"data\":%s} -> Execute returns %q and writes no response", d, r.err))
+					}
+				}
+				return strings.Join(hits, "; ")
+			},
+		},
 		findingPanic: {
 			Input: probeInput{probeSDL, `{ m }`, `{"m":[["a",null]]}`},
 			Fn: func() string {
